@@ -13,7 +13,7 @@ CONSTANTS
   DEV = {}
   MaxStray = 0
   MaxDup = 0
-  MaxCancel = 1
+  MaxCancel = 0
   MaxFault = 1
   GenFocus = "none"
   WithHist = FALSE
